@@ -6,6 +6,35 @@ posed as INVERSE_MODELING with (candidate phases = truth + distractors, dissolve
 configuration, perturbation of one analysis, option set).  Every model the library reports is re-verified by
 mc/oracles/invmodel.py from the problem text, the database text and the two reports (selected-output string,
 printed tables); the selected-output *table* is not usable (DESIGN section 7 F3).
+
+Relations judged per reported model (nothing else becomes a VIOLATION):
+  delta    every printed adjustment |d| <= declared uncertainty (u*c, or |u| if u < 0; pH: absolute)
+  balance  per element: sum_q f_q (c_q + d_q) + sum_p t_p nu_pe = (c + d)_final at print precision, and at 12 digits
+           the interval form |sum f c + sum t nu - c_final| <= sum f_q u_q c_q + u_f c_f; exchanger X: sum t nu_X = 0
+  sign     f_q >= 0; dissolve-only t >= 0; precipitate-only t <= 0
+  range    min <= value <= max for every fraction and transfer (with -range, |value| <= 1000)
+  minimal  with -minimal no reported set of phases + solutions strictly contains another reported set
+  slack    the statement gives none; the declared solver tolerance (1e-10, or -tolerance / 1e-12 with
+           -multiple_precision) absolute + 1e-11 relative (12-digit report) + half a unit of the last printed digit.
+"At least one model when the truth is admissible" is not in the statement: diagnostic / tally only.
+
+Calibration on the unchanged tree (R5) - six mechanisms break the statement; all are numerical failures of the
+double-precision cl1 solver whose status the callers ignore or cannot see (this build has no INVERSE_CL1MP).  Each has
+its own fingerprint (constants FP_* in the oracle); every other failure keeps the plain relation fingerprint:
+  FP_MINIMAL       minimal_solve() ends with solve_with_mask() and ignores its status: after 'CL1: Roundoff errors' the
+                   left-over vector is printed as a 'minimum number of phases' model (fractions -108, 5.9e4 mol CO2 ...)
+  FP_RANGE_ERR     range() prints 'Error in subroutine range. Kode = 1' and stores the failed call's x as min / max
+  FP_RANGE_PRUNED  members with |value| <= 1e-9 are pruned before range() but still reported: value 8.6e-10 in [0, 0]
+  FP_RANGE_H2O / FP_MODEL_H2O  Gypsum + Anhydrite (differ by 2 H2O) with -mineral_water true: cl1 returns kode 0 for a
+                   vertex that violates a dissolve-only constraint / lies outside its own range
+  FP_RANGE_MIX     >= 2 initial solutions: cl1 inside range() returns kode 0 for a non-optimal bound (value 0.316,
+                   range 0.370..0.374; with -tolerance 1e-8 the same model gets 0.309..0.374)
+Oracle corrections made during calibration (class b): a transfer with |value| > 1000 is not compared with its range
+(the manual defines min / max as the feasible values nearest -/+ 1000, i.e. clipped: Calcite / Aragonite pairs are
+unbounded); 'CL1: Roundoff errors' messages that belong to range() calls or to discarded candidate sets are no longer
+attributed to the model that follows them.
+Not covered: isotope balances (-isotopes), -uncertainty_water, redox elements with several valence states in the
+analyses, databases other than phreeqc.dat.
 """
 import itertools
 import os
@@ -49,6 +78,7 @@ PERTS = [None, ("Ca", 0.5, "final"), ("Ca", 2.0, "final"), ("Cl", 2.0, "final"),
 
 BAL_ELS = ["Ca", "Mg", "Na", "K", "Cl", "S", "C", "Si", "Al"]
 _stoich = None
+DEADLINE = {"quick": 150, "thorough": 1500}        # hard deadlines (s): the run stops between bounds, exhaustive:false
 
 
 def stoich():
@@ -238,6 +268,7 @@ def run_case(case):
         return {"case": case, "problems": [], "ops": 2, "states": [state], "outcome": "error:" + core.sha(r["err"][:200]),
                 "not_completed": True, "script": script, "diagnostics": diags + ["inverse run rc=%s: %s" % (r["rc"], r["err"][:160].replace("\n", " "))]}
     problems, info = im.judge(problem, stoich(), r["out"], selstr)
+    diags += info.get("diags", [])
     tr = truth_transfers(case["truth"])
     truth_in = not case.get("pert") and case.get("cons", "none") != "bad"
     if truth_in and info["n_models"] == 0:
@@ -245,8 +276,16 @@ def run_case(case):
     outcome = core.sha(repr((info["n_models"], info["sets"])))
     sample = {"case": case, "models": info["n_models"], "sets": info["sets"][:3],
               "first_row": selstr.split("\n")[1][:200] if info["n_models"] else ""}
+    o = problem["inverse"]["opts"]
+    n = info["n_models"]
+    tally = {"models_with_range": n if o["range"] else 0, "models_minimal_option": n if o["minimal"] else 0,
+             "models_with_constraints": n if any(p.get("constraint") for p in problem["inverse"]["phases"]) else 0,
+             "models_mixing(2+ initial solutions)": n if len(problem["solutions"]) > 2 else 0,
+             "models_after_range_error_message": sum(1 for a, b in info.get("pre", []) if a),
+             "models_after_bare_roundoff_message": sum(1 for a, b in info.get("pre", []) if b),
+             "runs_truth_admissible_but_no_model": 1 if truth_in and n == 0 else 0}
     return {"case": case, "problems": problems, "ops": 2, "states": [state], "outcome": outcome, "script": script,
-            "sample": sample, "diagnostics": diags, "n_models": info["n_models"]}
+            "sample": sample, "diagnostics": diags, "n_models": n, "tally": tally}
 
 
 # ------------------------------------------------------------------------------------------------ lattices
@@ -371,21 +410,66 @@ def lattices(tier):
     return L
 
 
+class _Findings(core.Findings):
+    """One VIOLATION line per fingerprint for the whole run (explore_cases is called once per lattice)."""
+
+    def __init__(self, prop):
+        core.Findings.__init__(self, prop)
+        self._seen = set()
+
+    def report(self, fingerprint, what, replay_text, ext="case"):
+        if fingerprint in self._seen:
+            if self.match(fingerprint) is not None:
+                self.known_hits[fingerprint] = self.known_hits.get(fingerprint, 0) + 1
+            return False
+        self._seen.add(fingerprint)
+        return core.Findings.report(self, fingerprint, what, replay_text, ext)
+
+
+class _TapPool:
+    """Hands core.explore_cases the real pool and counts what the run_case results say (vacuity evidence)."""
+
+    def __init__(self, pool, stats):
+        self.pool, self.stats = pool, stats
+
+    def map(self, f, items, chunksize=1, ordered=False):
+        st = self.stats
+        for r in self.pool.map(f, items, chunksize, ordered):
+            if isinstance(r, dict) and "case" in r and f is run_case:
+                if r.get("not_completed"):
+                    st["runs_not_completed"] += 1
+                else:
+                    n = r.get("n_models", 0)
+                    st["runs_completed"] += 1
+                    st["models_judged"] += n
+                    st["runs_with_%s_models" % ("0" if n == 0 else "1" if n == 1 else "2-4" if n <= 4 else "5+")] += 1
+                    for k, v in r.get("tally", {}).items():
+                        st[k] += v
+                    for fp, _ in r.get("problems", ()):
+                        st["cases_failing: " + fp] += 1
+            yield r
+
+
 def run(tier):
+    import collections
     ev = core.Evidence(PROP, tier)
-    findings = core.Findings(PROP)
+    findings = _Findings(PROP)
     ev.assumptions = [
         "database/phreeqc.dat loads; phase stoichiometry is taken from its text (PHASES formula, EXCHANGE_SPECIES product), not from the engine",
         "concentrations of the oracle are the numbers written into the SOLUTION blocks (mol/kgw, 1 kg water)",
-        "defaults taken from the manual: uncertainty 0.05, pH uncertainty 0.05, -tolerance 1e-10, -mp_tolerance 1e-12, lists repeat their last entry",
-        "declared solver tolerance is used as absolute slack of every inequality ('numbers smaller than tolerance are zero')",
+        "defaults taken from the manual: uncertainty 0.05, pH uncertainty 0.05, -tolerance 1e-10, -mp_tolerance 1e-12, -range maximum 1000, lists repeat their last entry",
+        "the statement gives no numeric tolerance: the declared solver tolerance (-tolerance / -mp_tolerance: 'a value less than tol is treated as zero') is used as absolute slack of every inequality, plus 1e-11 relative for the 12-digit report",
         "implementation constant: the library builds without INVERSE_CL1MP, so -multiple_precision only switches the tolerance to mp_tolerance",
-        "implementation constant: phases with |transfer| < 1e-9 (TOL, global_structures.h) are not members of a model; used only to give that case its own fingerprint",
+        "implementation constant TOL = 1e-9 (global_structures.h): members with |value| <= 1e-9 are pruned from a model before range(); used only to name that mechanism in a fingerprint",
+        "values with |value| > 1000 (the documented clipping bound of -range) are not compared with their min..max (diagnostic only)",
         "print formats: selected-output -high_precision %20.12e, printed tables %12.3e (rounding slack = half a unit in the last printed place)",
         "H, O, H(0), O(0), e- and the water balance are not re-verified (no element-wise statement); alkalinity and pH only through their adjustments",
+        "model membership for -minimal = non-zero reported fraction / transfer in the selected-output row",
     ]
-    pool = core.Pool()
-    dl = core.Deadline(170 if tier == "quick" else 1700)
+    stats = collections.Counter()
+    real_pool = core.Pool()
+    pool = _TapPool(real_pool, stats)
+    dl = core.Deadline(DEADLINE[tier])
     L = lattices(tier)
     done = True
     for name, cs in L.items():
@@ -399,10 +483,16 @@ def run(tier):
                             "perturbations": PERTS, "constraint_modes": ["none", "ok", "bad", "force"],
                             "options": ["-range", "-minimal", "-tolerance", "-mineral_water false", "-multiple_precision"]}
     ev.extra["lattice_points"] = sum(len(c) for c in L.values())
-    ev.extra["completed_runs"] = ev.traces - ev.not_completed
-    pool.close()
-    if ev.traces > 50 and (ev.not_completed > 0.5 * ev.traces or len(ev.outcomes) < 10):
-        raise SystemExit("C18: vacuous run (%d of %d not completed, %d distinct outcomes): the check is broken" % (ev.not_completed, ev.traces, len(ev.outcomes)))
+    ev.extra["completed_runs"] = stats["runs_completed"]
+    ev.extra["not_completed_runs"] = stats["runs_not_completed"]
+    ev.extra["models_judged"] = stats["models_judged"]
+    ev.extra["tally"] = dict(sorted(stats.items()))
+    real_pool.close()
+    if ev.traces > 50 and done:
+        if ev.not_completed > 0.5 * ev.traces or len(ev.outcomes) < 10 or stats["models_judged"] < ev.traces // 2 \
+                or not stats["models_with_range"] or not stats["models_minimal_option"] or not stats["models_with_constraints"]:
+            raise SystemExit("C18: vacuous run (%d of %d not completed, %d distinct outcomes, tally %r): the check is broken" % (
+                ev.not_completed, ev.traces, len(ev.outcomes), dict(stats)))
     return core.finish(ev, findings)
 
 
